@@ -13,6 +13,10 @@ MODEL_SWITCHES = [
     ("MC_Conc", "MC_Conc_Cbug.cfg", "ScanOK", "F1: scan returns a cleared slot"),
     ("MC_Conc2", "MC_Conc2_bug1.cfg", "LinOK", "split without the splitting bit"),
     ("MC_Conc2", "MC_Conc2_bug2.cfg", "LinOK", "get without the final version check"),
+    ("MC_Conc3", "MC_Conc3_bug1.cfg", "Quiescent", "emptied border not marked deleted"),
+    ("MC_Conc3", "MC_Conc3_bug2.cfg", "Quiescent", "collapsed interior root not marked deleted"),
+    ("MC_Conc3", "MC_Conc3_bug3.cfg", "LockOK", "retry edge of the prev-lock loop keeps prev locked"),
+    ("MC_Conc3", "MC_Conc3_bug4.cfg", "Quiescent", "F14: surviving empty root keeps links to its deleted sibling"),
     ("YkEpoch", "MC_Epoch_bug.cfg", "SafeStrong", "F5: two-step enter"),
     ("YkLife", "MC_Life_bug.cfg", "ThreadsAliveWhileRunning", "F4: stop flags not cleared"),
     ("MC_Tree", "MC_Tree_scan5_f2.cfg", "ScanOK", "F2: scan uses l_key with INF"),
